@@ -107,7 +107,7 @@ def run(ctx):
             recs.append(dict(kind='auto', has_classes=has, d=d, n=n, nc=nc, ncls=ncls, impl=k))
             ctx.seen(('auto', has, d, n, nc, ncls), True)
   # ---- 3. components_from_metric
-  kinds = ['pd', 'psd', 'indefinite', 'diag', 'diag_neg', 'nonsym']
+  kinds = ['pd', 'psd', 'indefinite', 'diag', 'diag_neg', 'nonsym', 'diag_near', 'dense_near']
   for i in range(600 if thorough else 120):
     d = int(rng.integers(1, 9))
     kind = kinds[i % len(kinds)]
@@ -116,6 +116,16 @@ def run(ctx):
       if d == 1:
         continue
       M[0, d - 1] += 1.0 + abs(M[0, d - 1])
+    elif kind in ('diag_near', 'dense_near'):
+      # PSD up to rounding: the most negative eigenvalue is a fraction of the default tolerance |w|max * d * eps
+      wv = np.abs(rng.standard_normal(d)) + 0.25
+      wv[int(rng.integers(0, d))] = -np.abs(wv).max() * d * np.finfo(float).eps * float(rng.choice([0.05, 0.2, 0.4])) if d > 1 else 0.0
+      if kind == 'diag_near':
+        M = np.diag(wv)
+      else:
+        Qm, _ = np.linalg.qr(rng.standard_normal((d, d)))
+        M = (Qm * wv).dot(Qm.T)
+        M = (M + M.T) / 2
     else:
       M = sym_matrix(rng, d, kind)
     oc, L = outcome(lambda: components_from_metric(M.copy()))
@@ -134,7 +144,7 @@ def run(ctx):
       if oc != 'NonPSDError':
         ctx.fail_input('components_from_metric', 'matrix with an eigenvalue below -tol not rejected with NonPSDError', inp, observed=oc)
       continue
-    if w.min() < 0 and w.min() > -100 * tol:
+    if w.min() < -0.5 * tol and w.min() > -100 * tol:
       ctx.count('components_from_metric', 0, skipped=1)     # within rounding of the tolerance boundary
       continue
     if oc != 'ok':
@@ -174,14 +184,28 @@ def run(ctx):
         if oc != 'ok':
           ctx.fail_input('components_from_metric_tol', '%s matrix whose negative eigenvalue is within the explicit tol is rejected' % shape,
                          inp, observed=oc)
-        elif np.abs(L.T.dot(L) - M).max() > 2 * t:
+        elif not np.isfinite(L).all() or not (np.abs(L.T.dot(L) - M).max() <= 2 * t):
           ctx.fail_input('components_from_metric_tol', 'L^T L differs from M by more than the tolerance', inp, observed=L.tolist())
   # ---- 4. metric initialisers
-  for rep in range(8 if thorough else 3):
+  for rep in range(10 if thorough else 4):
     data = fits.make_data(rng)
     X, d = data['X'], data['d']
     pairs = X[data['pairs_idx']]
-    for inp_arr, label in ((X, 'points'), (pairs, 'tuples')):
+    Xpts = X
+    if rep % 2:
+      # coarse data with zero coordinates, points shared by several tuples, and the two spellings of zero (0.0, -0.0):
+      # the distinct training POINTS are distinct as numbers
+      Xr = np.round(X)
+      Xr[:, int(rng.integers(0, d))] *= (rng.random(len(X)) < 0.6)
+      pairs = Xr[data['pairs_idx']].copy()
+      flip = (pairs == 0) & (rng.random(pairs.shape) < 0.5)
+      pairs[flip] = -0.0
+      if np.linalg.matrix_rank(np.unique(np.vstack(pairs), axis=0) - np.vstack(pairs).mean(axis=0)) < d:
+        pairs = X[data['pairs_idx']]
+      else:
+        ctx.hist('init_metric.signed_zeros', True)
+        Xpts = np.unique(Xr, axis=0)     # a 2-D input is used as it is (no tuples to flatten): give it distinct rows
+    for inp_arr, label in ((Xpts, 'points'), (pairs, 'tuples')):
       oc, M = outcome(lambda: _initialize_metric_mahalanobis(inp_arr, 'identity'))
       ctx.count('init_metric', 1)
       if oc != 'ok' or not np.array_equal(M, np.eye(d)):
